@@ -121,6 +121,10 @@ type ProcObs struct {
 	DiedEarly  bool     `json:"died_early"` // exited before the driver's kill
 	Bad        []string `json:"bad_output,omitempty"`
 	OutputTail string   `json:"output_tail,omitempty"`
+	// "address already in use": every attempt to start lost its port to another process (other checks start servers on
+	// this machine at the same time and find their ports the same way). Not an observation about the server: the
+	// oracle (lib/killtie.py) does not judge such a kill.
+	BindFailure bool `json:"bind_failure,omitempty"`
 }
 
 type FileEntry struct {
@@ -346,9 +350,10 @@ func (s *serverSpec) args() []string {
 }
 
 // startServer starts the binary and waits until it logged that its listener is up and it accepts connections. On
-// "address already in use" (another process took the port between probing and binding) it retries on a new port.
+// "address already in use" (another process took the port between probing and binding) it retries on a new port
+// (first attempt + 5 retries; every start, the restart included, takes a fresh port).
 func startServer(s *serverSpec, obs *ProcObs) *proc {
-	for attempt := 1; attempt <= 5; attempt++ {
+	for attempt := 1; attempt <= 6; attempt++ {
 		obs.Attempts = attempt
 		g, err := freeAddr()
 		if err != nil {
@@ -369,6 +374,9 @@ func startServer(s *serverSpec, obs *ProcObs) *proc {
 			if p.exited() {
 				break
 			}
+			if strings.Contains(p.out.String(), "address already in use") {
+				break
+			}
 			if strings.Contains(p.out.String(), "gRPC server started. Listening on "+s.grpcAddr) && dialOK(s.grpcAddr) && !p.exited() {
 				ready = true
 				break
@@ -376,8 +384,9 @@ func startServer(s *serverSpec, obs *ProcObs) *proc {
 			time.Sleep(3 * time.Millisecond)
 		}
 		if ready {
-			obs.Started = true
-			obs.StartErr = ""
+			// nothing of an earlier attempt that lost its port stays in the record
+			obs.Started, obs.StartErr, obs.BindFailure = true, "", false
+			obs.Exited, obs.ExitCode, obs.KilledBy, obs.Bad, obs.OutputTail = false, 0, "", nil, ""
 			return p
 		}
 		exitedItself := p.exited()
@@ -398,9 +407,11 @@ func startServer(s *serverSpec, obs *ProcObs) *proc {
 			obs.StartErr = fmt.Sprintf("the server did not come up within 15 s (attempt %d): %s", attempt, tail(out, 1200))
 		}
 		if strings.Contains(out, "address already in use") {
-			time.Sleep(time.Duration(40*attempt) * time.Millisecond)
+			obs.BindFailure = true
+			time.Sleep(time.Duration(20*attempt) * time.Millisecond)
 			continue
 		}
+		obs.BindFailure = false
 		return nil
 	}
 	return nil
